@@ -266,9 +266,31 @@ fn clone_built_differs(case: &Case, real: &Obs) -> Option<String> {
     None
 }
 
+/// the same case with every library combinator type-erased right where it is made (entered through go_emit / go_check,
+/// the entry points of dynamic dispatch, instead of the generic go::<M>): both ways in must behave alike
+fn inner_boxed_differs(case: &Case, real: &Obs) -> Option<String> {
+    if real.panic.is_some() || matches!(case.kind.as_str(), "static" | "staticc") || !case.more.is_empty() {
+        return None;
+    }
+    crate::build::BOX_INNER.with(|c| c.set(true));
+    let o = run_case_as(case, &case.kind, &case.ety, &case.mode);
+    crate::build::BOX_INNER.with(|c| c.set(false));
+    let o = o.ok()?;
+    if o.ok != real.ok || o.out != real.out || o.errs != real.errs {
+        return Some(format!("a combinator entered through its type-erased entry point (boxed directly) behaves differently: accepts={} out={} errs={:?} vs accepts={} out={} errs={:?}",
+            o.ok, o.out, o.errs, real.ok, real.out, real.errs));
+    }
+    None
+}
+
 pub fn real_asserts(prop: &str, case: &Case, real: &Obs, all: &dyn Fn(&str, &str, &str) -> Option<Obs>) -> Option<String> {
     if matches!(prop, "C02" | "C09" | "C15" | "C08") {
         if let Some(e) = clone_built_differs(case, real) {
+            return Some(e);
+        }
+    }
+    if matches!(prop, "C01" | "C02" | "C04" | "C07" | "C13" | "C15" | "C14") {
+        if let Some(e) = inner_boxed_differs(case, real) {
             return Some(e);
         }
     }
